@@ -992,7 +992,10 @@ fn worker_c11(tier: &str, seed: u64) -> ExitCode {
     a.samples.sort_by_key(|s| s["run_index"].as_u64());
     a.samples.truncate(2);
     let stats = a.stats;
-    let (rep, harness_error) = minimise_and_report(id, seed, tier, a.firsts);
+    let (mut rep, harness_error) = minimise_and_report(id, seed, tier, a.firsts);
+    let pinned = replay_pinned_findings(id);
+    rep.known += pinned.known;
+    rep.violations += pinned.violations;
     let wall = out.wall.as_secs_f64();
     let warnings = zero_probe_warnings(
         &stats,
